@@ -117,7 +117,8 @@ def prepare_unit(u, bdir):
     except X.ExtractError as e:
         raise Inconclusive('extraction: %s' % e)
     cmd = ['goto-cc', '-nostdinc', '-I', os.path.join(VERIF, 'vstd'), '-I', u['dir'], '-I', bdir,
-           '-DVERIF_CBMC=1'] + config_defines() + u.get('cxx_defines', []) + \
+           '-DVERIF_CBMC=1'] + config_defines() + \
+          (u.get('cxx_defines_thorough', u.get('cxx_defines', [])) if TIER == 'thorough' else u.get('cxx_defines', [])) + \
           ['-c', 'gen.cpp', '-o', 'gen.gb']
     rc, out = sh(cmd, bdir, 300, log)
     if rc != 0:
